@@ -156,7 +156,7 @@ def t_relabel(rng, case, findings):
         new = ["k%04d" % v for v in rng.sample(range(0, 5000), len(keys))]
     ren = dict(zip([json.dumps(k) for k in keys], new))
     g2 = dict(graph, nodes=[[ren[json.dumps(k)], r, rn, fi] for k, r, rn, fi in graph["nodes"]],
-              edges=[[ren[json.dumps(u)], ren[json.dumps(v)]] for u, v in graph["edges"]])
+              edges=[[ren[json.dumps(e[0])], ren[json.dumps(e[1])]] + list(e[2:]) for e in graph["edges"]])
     return dict(case, graph=g2), "relabel:" + mode
 
 
@@ -169,7 +169,7 @@ def t_insertion(rng, case, findings):
 
 def t_edges(rng, case, findings):
     graph = case["graph"]
-    edges = [[v, u] if rng.random() < 0.5 else [u, v] for u, v in graph["edges"]]
+    edges = [([e[1], e[0]] if rng.random() < 0.5 else [e[0], e[1]]) + list(e[2:]) for e in graph["edges"]]
     rng.shuffle(edges)
     return dict(case, graph=dict(graph, edges=edges)), "edges"
 
@@ -260,7 +260,9 @@ def run_one(ctx, rng, case, kind, findings, pending):
         record["checks"].append(("gen_params", base_e2e, var_e2e))
         record["checks"].append(("processors", base_st, var_st))
         record["variant"] = variant
-        record["model"] = [model_requests(case, base_out), model_requests(variant, var_out)]
+        if "atom-removed-by-link" not in c01.features(case):
+            # (after an atom removal the residues are renumbered: known C01 finding, not modelled)
+            record["model"] = [model_requests(case, base_out), model_requests(variant, var_out)]
     elif kind == "history":
         # 0-3 other calls first, all in one temp directory so that nothing they queued is lost
         others = [c01.make_case(rng, findings=rng.choice([(), ("resid-start-0",), ("dup-key-in-block",)]))
@@ -400,6 +402,49 @@ def source_anchor(ctx):
                                 detail="; ".join(problems) or "gen_itp.py / load_library.py anchors found"))
 
 
+def history_prologue(ctx, rng):
+    """Designed pairs of calls, run while this process has not called gen_params yet: call B alone, then call A,
+    then B again.  A = explicit -mods selection / other force field / other graph; B = default termini.  A state
+    that one call leaves behind for the next (class attributes, module globals, mutable defaults) shows as a
+    difference between the two B results, and the concrete pair (A, B) is reported."""
+    def protein_case(explicit):
+        for _ in range(400):
+            case = c01.make_case(rng, protein=True, multires=False)
+            names = {m["name"] for m in case["ff"]["mods"]}
+            if not {"N-ter", "C-ter"} <= names or c01.expected_reject(case) or c01.features(case):
+                continue
+            if explicit and case["mods"]:
+                return case
+            if not explicit and case["mods"] is None and any(n[2] in gen.PROTEIN_NAMES for n in case["graph"]["nodes"]):
+                return case
+        return None
+    pairs = []
+    b_case = protein_case(False)
+    for _ in range(2):
+        a_case = protein_case(True)
+        if a_case is not None and b_case is not None:
+            pairs.append((a_case, b_case))
+    if b_case is None:
+        return
+    fresh_e2e = observe_e2e(b_case["files"], b_case["graph"], b_case["mods"])[0]
+    fresh_st = observe_stages(b_case["files"], b_case["graph"], b_case["mods"])[0]
+    for a_case, _ in pairs:
+        observe_e2e(a_case["files"], a_case["graph"], a_case["mods"])
+        observe_stages(a_case["files"], a_case["graph"], a_case["mods"])
+        again_e2e = observe_e2e(b_case["files"], b_case["graph"], b_case["mods"])[0]
+        again_st = observe_stages(b_case["files"], b_case["graph"], b_case["mods"])[0]
+        verdict = "same"
+        for path, a, b in (("gen_params", fresh_e2e, again_e2e), ("processors", fresh_st, again_st)):
+            if not same(a, b):
+                verdict = "differs"
+                ctx.oracle_fail("history-changes-output",
+                                "%s without -mods gives another result after an earlier call with -mods %s than in a fresh "
+                                "process: %s" % (path, a_case["mods"], describe_diff(a, b)),
+                                dict(kind="history", case=c01.case_replay(b_case), others=[c01.case_replay(a_case)]))
+        ctx.case(json.dumps(["prologue", a_case["mods"], b_case["graph"]["nodes"]], default=str), kind="history",
+                 transform="history:mods-then-default", verdict=verdict)
+
+
 def corpus_specs():
     path = os.path.join(common.VERIF, "corpus", PID)
     out = []
@@ -445,8 +490,14 @@ def run(ctx):
             kw = dict(multires=True, keys="offset")
         if idx % 9 == 0:
             kw = dict(protein=True, keys="0..n-1", shuffle=False)
+        kind = KINDS[idx % len(KINDS)]
+        if kind == "definitions" and idx % 4 == 3:
+            # an atom-removing link next to other links (one of them mentioning the removed atom): whatever the
+            # renumbering of the residues (known C01 finding) does, it does in both orders
+            kw = dict(kw, findings=("atom-removed-by-link",))
         case = c01.make_case(rng, **kw)
-        specs.append((case, KINDS[idx % len(KINDS)], rng.randint(0, 10 ** 9)))
+        specs.append((case, kind, rng.randint(0, 10 ** 9)))
+    history_prologue(ctx, rng)
     # the very first call of this process, repeated after everything else has run
     first = specs[0][0] if specs else None
     first_obs = observe_e2e(first["files"], first["graph"], first["mods"])[0] if first else None
